@@ -14,8 +14,13 @@ pub struct Pool {
     pub workers: usize,
     pub runs: AtomicU64,
     pub restarts: AtomicU64,
+    /// runs that did not complete (watchdog, dead executor); after a few of them the batch is
+    /// abandoned: something systematic is wrong (e.g. a lock the simulator has no points for)
+    pub failed: AtomicU64,
     idle: Mutex<Vec<Proc>>,
 }
+
+pub const ABANDON_AFTER: u64 = 4;
 
 struct Proc {
     child: Child,
@@ -72,6 +77,7 @@ impl Pool {
             workers,
             runs: AtomicU64::new(0),
             restarts: AtomicU64::new(0),
+            failed: AtomicU64::new(0),
             idle: Mutex::new(vec![]),
         }
     }
@@ -94,6 +100,10 @@ impl Pool {
                             }
                             break;
                         }
+                        if self.failed.load(Ordering::Relaxed) >= ABANDON_AFTER {
+                            out.lock().unwrap()[i] = Some(json!({"harness_error": "batch abandoned after repeated incomplete runs"}));
+                            continue;
+                        }
                         if proc.is_none() {
                             match Proc::start(&self.exe) {
                                 Ok(p) => proc = Some(p),
@@ -108,8 +118,10 @@ impl Pool {
                         let r = proc.as_mut().unwrap().exec(&specs[i]);
                         let rec = match r {
                             Ok(v) => {
-                                let fatal = v["watchdog"].as_bool() == Some(true)
-                                    || v["deadlock"].as_bool() == Some(true);
+                                if v["watchdog"].as_bool() == Some(true) {
+                                    self.failed.fetch_add(1, Ordering::Relaxed);
+                                }
+                                let fatal = false; // the executor forks per run: it survives both
                                 if fatal {
                                     proc = None; // the child exits by itself; start a fresh one
                                     self.restarts.fetch_add(1, Ordering::Relaxed);
@@ -118,6 +130,7 @@ impl Pool {
                             }
                             Err(e) => {
                                 proc = None;
+                                self.failed.fetch_add(1, Ordering::Relaxed);
                                 self.restarts.fetch_add(1, Ordering::Relaxed);
                                 json!({"harness_error": e})
                             }
